@@ -13,6 +13,38 @@ import (
 // dominated by an upper bound against a constant and, when the buffer is indexed
 // unconditionally by the consumer, by a lower bound n >= 1.
 func (c *Ctx) literalBounds(rule string) {
+	// functions that hand on a number parsed from the client (ParseNumber family and own wrappers around it)
+	numberFuncs := map[*ssa.Function]bool{}
+	for _, g := range c.productFuncs() {
+		switch engine.ShortName(g) {
+		case "ParseNumber", "ParseNZNumber", "ParseNumberN":
+			numberFuncs[g] = true
+		}
+	}
+	for changed := true; changed; {
+		changed = false
+		for _, g := range c.productFuncs() {
+			if numberFuncs[g] {
+				continue
+			}
+			for _, ret := range engine.Returns(g) {
+				for _, r := range ret.Results {
+					if b, ok := r.Type().Underlying().(*types.Basic); !ok || b.Info()&types.IsInteger == 0 {
+						continue
+					}
+					engine.Backward(r, engine.FlowOpts{}, func(x ssa.Value) bool {
+						if call, ok := x.(*ssa.Call); ok {
+							if sc := call.Call.StaticCallee(); sc != nil && numberFuncs[sc] && !numberFuncs[g] {
+								numberFuncs[g] = true
+								changed = true
+							}
+						}
+						return true
+					})
+				}
+			}
+		}
+	}
 	P, R := c.P, c.R
 	R.Explain(rule, "allocation cap (T-DOM): every make whose size flows from ParseNumber in the parsing packages is dominated by a comparison with a constant upper bound (error on exceed, <= 64 MiB) and by a lower bound that excludes 0 (Scanner.ConsumeBytes writes dst[0] unconditionally).")
 	n := 0
@@ -27,7 +59,7 @@ func (c *Ctx) literalBounds(rule string) {
 				var num ssa.Value
 				engine.Backward(ms.Len, engine.FlowOpts{}, func(x ssa.Value) bool {
 					if call, ok := x.(*ssa.Call); ok {
-						if sc := call.Call.StaticCallee(); sc != nil && (engine.ShortName(sc) == "ParseNumber" || engine.ShortName(sc) == "ParseNZNumber" || engine.ShortName(sc) == "ParseNumberN") {
+						if sc := call.Call.StaticCallee(); sc != nil && numberFuncs[sc] {
 							fromNumber = true
 						}
 					}
